@@ -189,7 +189,7 @@ def _raise(acc):
 
 
 class Obs:
-    __slots__ = ("n", "usl", "lsl", "g", "pres", "fixed", "key", "bad")
+    __slots__ = ("n", "usl", "lsl", "g", "pres", "fixed", "key", "bad", "rusl", "rlsl")
 
 
 def slack(model):
@@ -199,6 +199,18 @@ def slack(model):
 def _suffix(n, pres):
     """S1 class: population size whose 1/(2n) rounds and at least one locus fixed for allele 1."""
     return S1 if R.reciprocal_rounds(2 * n) and bool((pres == 2).any()) else ""
+
+
+def attainable(model, pres):
+    """Reference extremes given the alleles present (per locus 2*max / 2*min of {0 if allele 0 present, u if allele
+    1 present}).  Used for the vacuity/coverage flags only (so that they do not depend on the library's answers);
+    the property does not demand that the limits be attained, so this is not an oracle."""
+    U = model.u_a
+    has0 = ((pres & 1) != 0)[:, None]
+    has1 = ((pres & 2) != 0)[:, None]
+    hi = numpy.where(has1 & has0, numpy.maximum(U, 0.0), numpy.where(has1, U, 0.0))
+    lo = numpy.where(has1 & has0, numpy.minimum(U, 0.0), numpy.where(has1, U, 0.0))
+    return 2.0 * hi.sum(0), 2.0 * lo.sum(0)
 
 
 def observe(model, obj, ctx=None):
@@ -212,6 +224,7 @@ def observe(model, obj, ctx=None):
     o.g = model.gebv_numpy(Z)
     o.pres = presence(mat)
     o.fixed = bool(((o.pres == 1) | (o.pres == 2)).all())
+    o.rusl, o.rlsl = attainable(model, o.pres)
     o.bad = check_limits(model, o.usl, o.lsl, o.g, o.n, o.pres, o.fixed, "phased", "library")
     return o
 
@@ -565,14 +578,16 @@ def expand(ctx, pop, seed, nmax, level, only=None):
         ctx.flag("edge:allele-lost" if lost else "edge:nothing-lost")
         if co.fixed:
             ctx.flag("edge:child-fixed")
-        if (co.usl < po.usl - 1e-9).any():
-            ctx.flag("edge:usl-decreased")
-        if (co.lsl > po.lsl + 1e-9).any():
+        if (co.rusl < po.rusl - 1e-9).any():
+            ctx.flag("edge:usl-decreased")         # (by the reference extremes, independent of the library's answer)
+        if (co.rlsl > po.rlsl + 1e-9).any():
             ctx.flag("edge:lsl-increased")
-        if (numpy.abs(co.g.max(0) - co.usl) < 1e-9).any():
+        if (numpy.abs(co.g.max(0) - co.rusl) < 1e-9).any():
             ctx.flag("bracket:tight")
-        if (co.g.max(0) < co.usl - 1e-9).any():
+        if (co.g.max(0) < co.rusl - 1e-9).any():
             ctx.flag("bracket:strict")
+        if ok and not (numpy.allclose(co.usl, co.rusl, rtol=1e-9, atol=1e-12) and numpy.allclose(co.lsl, co.rlsl, rtol=1e-9, atol=1e-12)):
+            ctx.count("info:limit-differs-from-attainable-extreme")
         if ctx.evaluations % 50021 == 1:
             ctx.sample(dict(case, child=[list(map(list, i)) for i in cpop], usl_parent=po.usl[:4].tolist(),
                             usl_child=co.usl[:4].tolist(), lsl_parent=po.lsl[:4].tolist(), lsl_child=co.lsl[:4].tolist()))
